@@ -1,5 +1,5 @@
 import Ivg.Model.Arc
-import Ivg.Gen.Tie
+import Ivg.Gen.Tie.RendererFields
 import Ivg.Obligations
 /-!
 # C06 — elliptical arcs (PARTIAL)
